@@ -146,3 +146,38 @@ void drv_c06_replay(int tier, unsigned long seed, const char *extra) {
     if (n % 50 == 0) { callf("mpz_clear", 0); callf("mpz_init_set_str", 0, tab + 1, base); } }
   fclose(f); callf("mpz_clear", 0); callf("mpq_clear", 0); rec_quiesce();
 }
+
+/* c06_bigbase: operands whose LIMBS are the constants of the conversion itself.  The basecase divides by big_base = base^chars_per_limb and
+   compares limbs with it, so the limb values big_base-1, big_base, big_base+1 (next to 0, 1 and all ones) decide its branches the way B/2 and B-1
+   decide those of division: every operand of 2 and 3 limbs over that alphabet, in every base that is not a power of two, is converted by
+   mpz_get_str (caller buffer of exactly sizeinbase+2 bytes) and read back; longer operands (basecase up to the get_str DC threshold, and above it)
+   carry the constant in their top limbs. */
+void drv_c06_bigbase(int tier, unsigned long seed, const char *extra) {
+  shard_t sh = shard_parse(extra); long x = 0; int base, j;
+  for (base = 3; base <= 62; base++) { mp_limb_t bb, al[6]; int n, idx[3], k, big;
+    if ((base & (base - 1)) == 0) continue;
+    x++; if (!MINE(sh, x)) continue;
+    if (sh.pure && (base % 9)) continue;
+    rec_reset("c06_bigbase", x, seed);
+    bb = mp_bases[base].big_base;
+    al[0] = 0; al[1] = 1; al[2] = bb - 1; al[3] = bb; al[4] = bb + 1; al[5] = ~(mp_limb_t)0;
+    for (j = 0; j < 3; j++) callf("mpz_init", j);
+    for (n = 2; n <= (sh.pure ? 2 : 3); n++) { int tot = n == 2 ? 36 : 216, t;
+      for (t = 0; t < tot; t++) { mp_limb_t v[3]; char *h; int tt = t;
+        for (k = 0; k < n; k++) { idx[k] = tt % 6; tt /= 6; v[k] = al[idx[k]]; }
+        if (v[n - 1] == 0) continue;
+        if (n == 3 && !tier && idx[2] != 3 && idx[1] != 3 && idx[0] != 3 && (t % 3)) continue;      /* quick: all tuples containing big_base, a third of the others */
+        h = hex_of_limbs(v, n, t & 1); callf("drv_setz", 0, h); free(h);
+        callf("mpz_get_str_buf", base, 0); callf("mpz_get_str", base, 0);
+        { char *s = last_ret.str; callf("mpz_set_str", 1, s, base); rec_free_str(s); }
+        callf("mpz_sizeinbase", 0, base); } }
+    /* longer operands with the constant on top: sizes inside the basecase, at the DC threshold and above */
+    for (big = 0; big < (sh.pure ? 0 : 6); big++) { static const int ns[] = {4, 9, 14, 15, 16, 33}; mp_limb_t v[40]; char *h; int d;
+      n = ns[big];
+      for (d = -1; d <= 1; d++) { rnd_limbs(v, n, (int)rnd_below(NKINDS)); v[n - 1] = bb + d; if (big & 1) v[n - 2] = bb;
+        h = hex_of_limbs(v, n, 0); callf("drv_setz", 0, h); free(h);
+        callf("mpz_get_str", base, 0); { char *s = last_ret.str; callf("mpz_set_str", 1, s, base); rec_free_str(s); } } }
+    for (j = 0; j < 3; j++) callf("mpz_clear", j);
+    rec_quiesce();
+  }
+}
